@@ -249,8 +249,10 @@ def observe(store, layout, orng, cap_hint):
 
 
 def index_container(idxs, salt):
-    """the indices an add() names, in the container types a caller may use (int32 / int64 / unsigned arrays, python list)"""
-    kind = salt % 5
+    """the indices an add() names, in the container types a caller may use (int32 / int64 / unsigned arrays, python list, tuple)"""
+    kind = salt % 6
+    if kind == 5:
+        return tuple(int(i) for i in idxs)
     if kind == 1:
         return np.array(idxs, dtype=np.int64)
     if kind == 2 and all(i >= 0 for i in idxs):
